@@ -397,9 +397,17 @@ impl CursorTracker for CursorTrackerImpl<'_> {
                         };
                         let col_start = col_ws_start + ws.len;
 
-                        (new_token_offset
-                            - (col_start - (col as usize).clamp(col_ws_start, col_start)))
-                            as u32
+                        let mut back = col_start - (col as usize).clamp(col_ws_start, col_start);
+                        if fmt.is_ignored() {
+                            // The whitespace is emitted verbatim and may hold multi-byte blanks:
+                            // don't land in the middle of one.
+                            let leading_ws = tok.get_leading_whitespace();
+                            while !leading_ws.is_char_boundary(leading_ws.len() - back) {
+                                back += 1;
+                            }
+                        }
+
+                        (new_token_offset - back) as u32
                     }
                 }
             };
